@@ -567,6 +567,7 @@ partial def flattenOptions (e0 : Node) : List PropOp :=
     props.flatMap fun p =>
       match p with
       | .mk .kv _ [.mk .computed _ [.mk .str (k :: _) _], v] => [.set k v]
+      | .mk .kv _ [.mk .computed _ [.mk .tsTplLit _ [.mk .list _ [], .mk .list _ [.mk (.other "TemplateElement") (_ :: ck :: _) _]]], v] => [.set ck v]   -- [`name`]
       | .mk .kv _ [.mk .computed _ [k], v] => [.setC k v]
       | .mk .kv _ [k, v] => (match staticKeyOf k with | some s => [.set s v] | none => [.setC k v])
       | .mk .ident (n :: r) ks => [.set n (.mk .ident (n :: r) ks)]
@@ -604,6 +605,7 @@ partial def alignOptions (outOps inOps : List PropOp) (userBefore : List PropOp)
             let overridden := userBefore.any fun u => match u with
               | .set k' _ => k' == k
               | .spreadPlain _ => true
+              | .setC _ _ => true          -- a key computed at run time may BE this option
               | _ => false
             (alignOptions os ins userBefore).map fun rest => (k, v, overridden) :: rest
           else .error s!"option entry {k} differs from the input"
@@ -615,6 +617,7 @@ partial def alignOptions (outOps inOps : List PropOp) (userBefore : List PropOp)
           let overridden := userBefore.any fun u => match u with
             | .set k' _ => k' == k
             | .spreadPlain _ => true
+            | .setC _ _ => true
             | _ => false
           (alignOptions os [] userBefore).map fun rest => (k, v, overridden) :: rest
         else .error s!"option entry {k} was added"
